@@ -128,6 +128,7 @@ def run(model, rep):
     rep.rule('C04.E2E', 'renaming end to end on probe modules: names no function scope binds, attributes, keyword names, imported names, preserved names keep their spelling; module-level additions carry the underscore')
     rename_e2e.run(model, rep, 'C04.E2E')
     rename_e2e.idioms(model, rep, 'C04.E2E')
+    rename_e2e.reuse(model, rep, 'C04.E2E')
     rep.rule('C04.KEEP', 'end to end, both renaming options on: class attributes, system names, names used but never bound, roots of dotted imports, lambda parameters, super keep their spelling')
     keep = {n: why for (_sc, n), (pin, _res, why) in PIN_EXPECT.items() if pin and n not in ('print', 'object')}
     rename_e2e.keep_names(model, rep, 'C04.KEEP', 'pin probe', PIN_PROBE, set(keep), keep)
@@ -305,7 +306,11 @@ ARG_KINDS = {
 }
 ARG_SIGS = [('p0, p1, /, a0, a1, *va, k0, **kw', ['p0', 'p1', 'a0', 'a1', 'va', 'k0', 'kw'], {'p0': 'posonly', 'p1': 'posonly', 'a0': 'arg', 'a1': 'arg', 'va': 'vararg', 'k0': 'kwonly', 'kw': 'kwarg'}),
             ('a0, a1=None, *, k0=1', ['a0', 'a1', 'k0'], {'a0': 'arg', 'a1': 'arg', 'k0': 'kwonly'}),
-            ('a0', ['a0'], {'a0': 'arg'}), ('*va, **kw', ['va', 'kw'], {'va': 'vararg', 'kw': 'kwarg'}), ('p0, /', ['p0'], {'p0': 'posonly'})]
+            ('a0', ['a0'], {'a0': 'arg'}), ('*va, **kw', ['va', 'kw'], {'va': 'vararg', 'kw': 'kwarg'}), ('p0, /', ['p0'], {'p0': 'posonly'}),
+            # no positional parameter at all: nothing is "the implicit first parameter"
+            ('*, k0=80, k1=4', ['k0', 'k1'], {'k0': 'kwonly', 'k1': 'kwonly'}), ('*va, k0=1', ['va', 'k0'], {'va': 'vararg', 'k0': 'kwonly'}), ('**kw', ['kw'], {'kw': 'kwarg'}),
+            # parameters spelled like the names the renamer hands out, next to one that is renamed in place
+            ('a0, A, B=1, *, C=2', ['a0', 'A', 'B', 'C'], {'a0': 'arg', 'A': 'arg', 'B': 'arg', 'C': 'kwonly'}), ('p0, /, A, *va, B=0', ['p0', 'A', 'va', 'B'], {'p0': 'posonly', 'A': 'arg', 'va': 'vararg', 'B': 'kwonly'})]
 
 
 def arg_probe(model, rep):
